@@ -460,7 +460,7 @@ def _ab_gen(rng):
     return d
 
 
-ABP = Unit('C03', ABS + 'prepare_each', _ab_params, pre=ab_pre, post=ab_post, yields=ab_yields, invariants={1: ab_inv},
+ABP = Unit(['C03', 'C20'], ABS + 'prepare_each', _ab_params, pre=ab_pre, post=ab_post, yields=ab_yields, invariants={1: ab_inv},
            abstract={'Chemistry.get_gas_mix_profile': _get_mix, 'Opacity.opacity': _abs_opacity,
                      'new:OpacityCache': _new_cache, 'new:KTableCache': _new_cache, 'new:GlobalCache': _new_globalcache},
            cases=[{'G': k} for k in (0, 1, 2, 3)], bounds=[dict(n=2, W=1, nl=3), dict(n=2, W=1, nl=2)],
@@ -1100,7 +1100,7 @@ def _model_native(c, p):
     return (tag(g), a, t, x), dict(p, __trace__=trace)
 
 
-MODEL = Unit(['C03', 'C13', 'C01'], SM + 'model', _mc_params, post=_model_post, abstract=_MC_ABS, cases=_MC_CASES, bounds=[dict(Wn=3, Wo=2)],
+MODEL = Unit(['C03', 'C13', 'C01', 'C02', 'C20'], SM + 'model', _mc_params, post=_model_post, abstract=_MC_ABS, cases=_MC_CASES, bounds=[dict(Wn=3, Wo=2)],
              native=_model_native, gen=_mc_gen, short='SimpleForwardModel.model',
              doc='the forward-model evaluation: profiles initialised first, the native grid clipped to the requested grid exactly when '
                  'asked, the star and every contribution (in list order) prepared on that one grid, ONE path integral over the whole '
